@@ -651,6 +651,10 @@ class TreeGen:
         odd = st.fixed_dictionaries({"c": st.just("Odd"), "o": self.origin(),
                                      "k": st.fixed_dictionaries({"self": opt, "node": opt, "arg": opt, "args": items, "o": opt, "i": opt})})
         opts += [odd, odd.map(dict)]
+        cb = st.fixed_dictionaries({"c": st.just("CollBlock"), "o": self.origin(), "k": st.fixed_dictionaries({"stmts": items})})
+        fn = st.fixed_dictionaries({"c": st.just("Fn"), "o": self.origin(),
+                                    "k": st.fixed_dictionaries({"body": cb, "alt": st.one_of(st.none(), cb)})})
+        opts += [fn, cb]
         la = st.one_of(self.leaf_of("LeafA"), self.leaf_of("SubLeafA"))
         ntbox = st.fixed_dictionaries({"c": st.just("NtBox"), "o": self.origin(),
                                        "k": st.fixed_dictionaries({"kids": st.lists(la, max_size=3), "one": st.one_of(st.none(), la)})})
